@@ -36,6 +36,7 @@ type c11Case struct {
 	M     int   `json:"m"`
 	Order []int `json:"release_order"` // permutation applied to the arrived calls
 	Fail  []int `json:"fail"`          // request indices whose call answers 500
+	Wire  int   `json:"wire,omitempty"` // shape of a SUCCESSFUL answer: 0 {data}; 1 {data, errors: []}; 2 {data, errors: null}; 3 {data, extensions: {}}
 }
 
 type c11Obs struct {
@@ -52,6 +53,7 @@ type gateRT struct {
 	calls   [][]int
 	waiters []chan struct{}
 	fail    map[int]bool
+	wire    int
 }
 
 func (g *gateRT) RoundTrip(r *http.Request) (*http.Response, error) {
@@ -81,13 +83,21 @@ func (g *gateRT) RoundTrip(r *http.Request) (*http.Response, error) {
 	out := make([]map[string]interface{}, len(idxs))
 	for i, n := range idxs {
 		out[i] = map[string]interface{}{"data": map[string]interface{}{"v": n + 1000}}
+		switch g.wire {
+		case 1:
+			out[i]["errors"] = []interface{}{}
+		case 2:
+			out[i]["errors"] = nil
+		case 3:
+			out[i]["extensions"] = map[string]interface{}{}
+		}
 	}
 	b, _ := json.Marshal(out)
 	return &http.Response{StatusCode: 200, Body: io.NopCloser(bytes.NewReader(b)), Header: http.Header{"Content-Type": []string{"application/json"}}}, nil
 }
 
 func c11Run(cs c11Case) (obs c11Obs) {
-	g := &gateRT{fail: map[int]bool{}}
+	g := &gateRT{fail: map[int]bool{}, wire: cs.Wire}
 	for _, f := range cs.Fail {
 		g.fail[f] = true
 	}
@@ -259,8 +269,16 @@ func c11Oracle(cs c11Case, o c11Obs) string {
 	return ""
 }
 
+var c11Hung bool
+
 func c11Check(ctx *Ctx, idx int, cs c11Case) {
+	if c11Hung {
+		return // a hang was already found: every further call would leak goroutines and time
+	}
 	o := c11Run(cs)
+	if o.Outcome == "hang" {
+		c11Hung = true
+	}
 	ctx.Rep.Case(fmt.Sprintf("%d/%d/%v/%v", cs.N, cs.M, cs.Order, cs.Fail), cs.N > cs.M && cs.M >= 1)
 	switch {
 	case cs.N <= cs.M:
@@ -272,6 +290,9 @@ func c11Check(ctx *Ctx, idx int, cs c11Case) {
 	}
 	if len(cs.Fail) > 0 {
 		ctx.Rep.Count("with failing call")
+	}
+	if cs.Wire != 0 {
+		ctx.Rep.Count(fmt.Sprintf("wire=%d", cs.Wire))
 	}
 	if cs.N > cs.M {
 		ctx.Rep.Sample(map[string]interface{}{"case": cs, "calls": o.Calls, "outcome": o.Outcome})
@@ -352,12 +373,13 @@ func permutations(n int) [][]int {
 }
 
 func runC11(ctx *Ctx) error {
-	ctx.Rep.Rule = "case = (N requests, max batch m, release order of the concurrent HTTP calls, failing requests) through the real MultiOpQueryer.Query " +
+	ctx.Rep.Rule = "case = (N requests, max batch m, release order of the concurrent HTTP calls, failing requests, wire shape of successful answers: errors absent / [] / null / extensions) through the real MultiOpQueryer.Query " +
 		"over a gating RoundTripper; distinct = distinct tuple; non-trivial = chunked path (N > m)"
 	idx := 0
 	// corpus
-	for _, cs := range []c11Case{{0, 1, nil, nil}, {1, 1, nil, nil}, {2, 1, []int{1, 0}, nil}, {6, 3, []int{1, 0}, nil}, {7, 3, []int{2, 0, 1}, nil},
-		{6, 3, []int{1, 0}, []int{4}}, {5, 0, nil, nil}, {0, 0, nil, nil}, {3, 5, nil, []int{1}}} {
+	for _, cs := range []c11Case{{0, 1, nil, nil, 0}, {1, 1, nil, nil, 0}, {2, 1, []int{1, 0}, nil, 0}, {6, 3, []int{1, 0}, nil, 0}, {7, 3, []int{2, 0, 1}, nil, 0},
+		{6, 3, []int{1, 0}, []int{4}, 0}, {5, 0, nil, nil, 0}, {0, 0, nil, nil, 0}, {3, 5, nil, []int{1}, 0},
+		{1, 1, nil, nil, 1}, {7, 3, []int{2, 0, 1}, nil, 1}, {7, 3, []int{0, 1, 2}, nil, 2}, {5, 2, []int{2, 1, 0}, nil, 3}, {4, 0, nil, nil, 1}} {
 		c11Check(ctx, idx, cs)
 		idx++
 	}
@@ -374,18 +396,18 @@ func runC11(ctx *Ctx) error {
 		for N := 0; N <= maxN; N++ {
 			chunks := (N + m - 1) / m
 			if N <= m {
-				c11Check(ctx, idx, c11Case{N, m, nil, nil})
+				c11Check(ctx, idx, c11Case{N, m, nil, nil, idx % 4})
 				idx++
 				continue
 			}
 			boundary := N%m == 0 || N%m == 1 || N%m == m-1
 			if chunks <= maxPerm && (boundary || ctx.Thorough() || N < 12) {
 				for _, p := range permutations(chunks) {
-					c11Check(ctx, idx, c11Case{N, m, p, nil})
+					c11Check(ctx, idx, c11Case{N, m, p, nil, idx % 4})
 					idx++
 				}
 			} else if boundary || ctx.Rand.Chance(1, 3) {
-				c11Check(ctx, idx, c11Case{N, m, ctx.Rand.Fork().Perm(chunks), nil})
+				c11Check(ctx, idx, c11Case{N, m, ctx.Rand.Fork().Perm(chunks), nil, idx % 4})
 				idx++
 			}
 		}
@@ -396,7 +418,7 @@ func runC11(ctx *Ctx) error {
 		r := ctx.Rand.Fork()
 		m := r.Range(1, maxM)
 		N := r.Range(0, maxN)
-		cs := c11Case{N: N, M: m, Order: r.Perm((N + m - 1) / m)}
+		cs := c11Case{N: N, M: m, Order: r.Perm((N + m - 1) / m), Wire: r.Intn(4)}
 		if N > 0 && r.Chance(1, 2) {
 			for f := 0; f < r.Range(1, 2); f++ {
 				cs.Fail = append(cs.Fail, r.Intn(N))
